@@ -20,6 +20,7 @@
  *                       client whose response handler accepts / rejects it; the client's reply (ACK for a CON, nothing
  *                       for an accepted NON, RST when rejected) is delivered to the server (repeat = duplicate, never =
  *                       loss, late = delay).  The I/O loop runs at the end of every delivery (coap_io_do_epoll does).
+ *                       n >= 1000 means "the (n-1000)-th most recent one".
  *   err:r:b             from now on the GET handler of r<r> answers 4.04 (b=1) / 2.05 (b=0)
  *   lost:c              the server's session for client c is lost (coap_session_disconnected, NOT_DELIVERABLE)
  *   del:r               the application deletes r<r> (coap_delete_resource)
@@ -116,6 +117,7 @@ static int in_request;             /* a request of client c is being processed: 
 static const sim_dgram_t *to_client_now[16]; static int n_to_client_now;
 static const sim_dgram_t *cli_reply;         /* last datagram written by a client */
 static int first_out;
+static int nclientdev;
 
 static void sep(void) { if (!first_out) out(" "); first_out = 0; }
 
@@ -126,10 +128,13 @@ static void on_tx(const sim_dgram_t *d) {
     if (c < 0 || !d->decoded) { sep(); out("?tx"); return; }
     sim_tok(tk, d->token, d->tkl);
     ho = get_observe(d->data, d->len, d->tkl, &ov);
-    /* retransmission: same mid and same bytes as a recorded server-initiated datagram */
-    for (int n = 0; n < nnotes[c]; n++)
-      if (notes[c][n].d->mid == d->mid && notes[c][n].d->len == d->len && !memcmp(notes[c][n].d->data, d->data, d->len)) {
-        sep(); out("x%d.%d", c, n); return;
+    /* retransmission: coap_retransmit() re-inserts the node (same session, same mid) BEFORE it writes the datagram, whereas
+     * a first transmission is written before coap_wait_ack() queues it */
+    for (coap_queue_t *q = srv->sendqueue; q; q = q->next)
+      if (q->session == d->session && (uint16_t)q->id == (uint16_t)d->mid && q->retransmit_cnt > 0) {
+        for (int n = nnotes[c] - 1; n >= 0; n--)
+          if (notes[c][n].d->mid == d->mid) { sep(); out("x%d.%d", c, n); return; }
+        sep(); out("x%d.?", c); return;
       }
     if (in_request == c + 1 && (d->type == COAP_MESSAGE_ACK || (d->type == COAP_MESSAGE_NON && d->code != 0))) {
       in_request = 0;
@@ -248,6 +253,7 @@ static int do_event(char *ev) {
     int c = geti(f, nf, 1), n = geti(f, nf, 2);
     int want_rst = op[0] == 'r';
     if (nf != 3 || c < 0 || c >= ncli || n < 0) return 0;
+    if (n >= 1000) { if (n - 1000 >= nnotes[c]) return 1; n = nnotes[c] - 1 - (n - 1000); }   /* 1000+k: k-th most recent */
     if (n >= nnotes[c]) return 1;                  /* no such datagram (yet): nothing happens */
     note_t *nt = &notes[c][n];
     uint8_t exp[4]; size_t explen = 0;
@@ -264,7 +270,7 @@ static int do_event(char *ev) {
       cli_verdict = COAP_RESPONSE_OK;
       if (cli_reply) { nt->have_reply = 1; nt->reply_len = cli_reply->len > 8 ? 8 : cli_reply->len; memcpy(nt->reply, cli_reply->data, nt->reply_len); }
       if ((explen != 0) != (nt->have_reply != 0) || (explen && (nt->reply_len != explen || memcmp(nt->reply, exp, explen)))) {
-        sep(); out("clientdev");                   /* the real client did not reply as scripted */
+        nclientdev++;                              /* the real client did not reply as scripted (its own de-duplication) */
       }
     }
     if (explen) sim_inject_endpoint(ep, &csess[c]->addr_info.local, exp, explen);
@@ -307,7 +313,7 @@ static void step(char *line) {
   sim_prng_fill = 0;
   memset(nnotes, 0, sizeof(nnotes)); memset(clen, 0, sizeof(clen)); memset(res_err, 0, sizeof(res_err));
   for (int i = 0; i < MAXC; i++) clog_[i][0] = 0;
-  in_request = 0; cli_verdict = COAP_RESPONSE_OK;
+  in_request = 0; cli_verdict = COAP_RESPONSE_OK; nclientdev = 0;
   srv = sim_new_context();
   coap_context_set_session_timeout(srv, (unsigned)st);
   ep = sim_new_endpoint(srv, 0);
@@ -343,6 +349,7 @@ static void step(char *line) {
   if (bad) { sim_free_all(0); printf("bad-op"); return; }
   out(" ||");
   for (int c = 0; c < ncli; c++) out(" C%d:%s", c, clen[c] ? clog_[c] : "-");
+  out(" D%d", nclientdev);
   sim_tx_hook = NULL;
   sim_free_all(0);
   fputs(obuf ? obuf : "-", stdout);
